@@ -846,6 +846,37 @@ class Check(BaseCheck):
         rnd = random.Random(5)
         for f in self.probes(rnd, 60):
             self.compare(rec, aged, b, f, False, hist)
+        # a listener stays registered for as long as the parser lives, whatever becomes of the host's own references to it: a bound method
+        # of an object the host keeps nowhere else, a closure, a lambda - the outcome depends on the registrations, not on the collector
+        import hotxlfp
+
+        class Sheet(object):
+            def __init__(self, cells):
+                self.cells = cells
+
+            def cell_value(self, cell, setter):
+                setter(self.cells.get(cell.label))
+
+            def variable(self, name, setter):
+                if name == 'from_sheet':
+                    setter(self.cells.get('A1'))
+
+        def make():
+            q = hotxlfp.Parser()
+            q.on('callCellValue', Sheet({'A1': 2, 'B2': 5}).cell_value)
+            q.on('callVariable', Sheet({'A1': 7}).variable)
+            q.once('callRangeValue', Sheet({}).cell_value)
+            return q
+        q = make()
+        first = [outcome(q.parse(f)) for f in ('A1*21', 'A1+B2', 'from_sheet+1')]
+        gc.collect()
+        junk = [object() for _ in range(1000)]
+        del junk
+        gc.collect()
+        again = [outcome(q.parse(f)) for f in ('A1*21', 'A1+B2', 'from_sheet+1')]
+        rec.case()
+        if first != again or first != [('ok', ('int', 42)), ('ok', ('int', 7)), ('ok', ('int', 8))]:
+            rec.violation('C02/outcome-changes-when-the-host-drops-its-own-reference-to-a-listener', first=first, after_collection=again)
         # a re-binding between two evaluations of the same text must be seen (a cache keyed on text alone is caught)
         for name, v1, v2, f in (('xa', 4, 40, 'xa+1'), ('foo', 5, 'five', 'foo&"!"'), ('lst', [1, 2], [3, 4, 5], 'SUM(lst)')):
             aged.set_variable(name, v1)
